@@ -194,8 +194,13 @@ impl Indexable for ast::Def {
         let name = self.name().and_then(|it| index_name_value(it, ctx));
         let def_id = match name {
             Some((name, define_loc)) => {
+                // the outline of a defset lists its defs, but only those of its own file: a def
+                // that joins it from an included file is a top-level entry of that file
+                let is_listed_by_defset = defset_id.is_some_and(|defset_id| {
+                    ctx.symbol_map.defset(defset_id).define_loc.file == define_loc.file
+                });
                 let def = Record::new(name, RecordKind::Def, define_loc);
-                ctx.symbol_map.add_record(def, defset_id.is_none())
+                ctx.symbol_map.add_record(def, !is_listed_by_defset)
             }
             None => {
                 let name = ctx.next_anonymous_def_name();
